@@ -4107,6 +4107,10 @@ typename Enable_If<Is_Same<T, Box<ITV> >::value
                    void>::type
 Box<ITV>::CC76_widening_assign(const T& y,
                                const Iterator first, const Iterator last) {
+  // Dimension-compatibility check.
+  if (space_dimension() != y.space_dimension()) {
+    throw_dimension_incompatible("CC76_widening_assign(y, first, last)", y);
+  }
   if (y.is_empty()) {
     return;
   }
@@ -4132,6 +4136,10 @@ Box<ITV>::CC76_widening_assign(const T& y, unsigned* const tp) {
   };
 
   Box& x = *this;
+  // Dimension-compatibility check.
+  if (x.space_dimension() != y.space_dimension()) {
+    throw_dimension_incompatible("CC76_widening_assign(y)", y);
+  }
   // If there are tokens available, work on a temporary copy.
   if (tp != nullptr && *tp > 0) {
     Box<ITV> x_tmp(x);
